@@ -4,17 +4,22 @@ import Driver.Query
 import Driver.Parse
 
 /-! `bwdriver hooks`: the `Q` lines of the query protocol carry the statement's tokens (`tk=`, with what
-    Go's parsers make of each text) and the pattern clauses the real hooks built (`c=`). The tokens go through
+    Go's parsers make of each text) and the Statement the real hooks built (`c= p= g= gb= ob= lim= lo= hi=`). The tokens go through
     the model parser over the regenerated grammar; its hook events are routed by the regenerated hook table
-    to the model of the WHERE-clause hooks; the clauses that come out are compared with Go's. -/
+    to the model of the hooks; the clauses, projections, graphs, GROUP BY, ORDER BY, LIMIT and global bounds
+    that come out are compared with Go's. -/
 namespace Driver.Hooks
 open BW.Model BW.Model.Hooks BW.Generated Driver Driver.Query
+
+instance : BEq Proj := ⟨fun a b => a.binding == b.binding && a.alias == b.alias && a.op == b.op && a.distinct == b.distinct⟩
 
 def hkOf (name : String) : HK :=
   match name with
   | "BINDING" => .binding | "NODE" => .node | "PREDICATE" => .predicate | "PREDICATE_BOUND" => .predicateBound
   | "LITERAL" => .literal | "AS" => .as_ | "TYPE" => .type_ | "ID" => .id_ | "AT" => .at_ | "OPTIONAL" => .optional
-  | "LEFT_BRACKET" => .lbracket | "RIGHT_BRACKET" => .rbracket | "ASC" => .asc | "DESC" => .desc | _ => .other
+  | "LEFT_BRACKET" => .lbracket | "RIGHT_BRACKET" => .rbracket | "ASC" => .asc | "DESC" => .desc
+  | "SUM" => .sum | "COUNT" => .count | "DISTINCT" => .distinct | "COMMA" => .comma | "BEFORE" => .before
+  | "AFTER" => .after | "BETWEEN" => .between | "TIME" => .time | "LIMIT" => .limit_ | _ => .other
 
 def parseTok (s : String) : Option (Tok × HTk) :=
   match s.splitOn "~" with
@@ -36,7 +41,15 @@ def parseTok (s : String) : Option (Tok × HTk) :=
             | some i, some t => { base with part := some (i, t) }
             | _, _ => base
           | _ => base
+      | .time => { base with time := (parseTimeP payload).join }
       | .predicateBound =>
+        if payload.startsWith "G." then
+          match (payload.drop 2).toString.splitOn "." with
+          | [lo, hi] => match (parseTimeP lo).join, (parseTimeP hi).join with
+            | some lo, some hi => { base with pair := some (lo, hi) }
+            | _, _ => base
+          | _ => base
+        else
         match (payload.drop 2).toString.splitOn "." with
         | [id, la, ua, lo, hi] =>
           match hexStr id, hexStr la, hexStr ua, parseTimeP lo, parseTimeP hi with
@@ -51,6 +64,7 @@ def chEv : CHook → List HEv
   | .next => [.next]
   | .init => [.init]
   | .orderCheck => [.orderCheck]
+  | .flushVars => [.flushVars]
   | .none => []
 
 /-- Parser events → what the WHERE hooks are handed. -/
@@ -63,11 +77,10 @@ def toHEvs : List (Ev Tok Sym (Tok × HTk)) → List HEv
 
 def eofTk : Tok × HTk := (bql.eof, { k := .other })
 
-/-- The pattern clauses and the ORDER BY list the model hooks build from a token list; `none`: rejected by
-    parser or hooks. -/
-def clausesOf (toks : List (Tok × HTk)) : Option (List Clause × List (Bytes × Bool)) :=
+/-- What the model hooks build from a token list; `none`: rejected by parser or hooks. -/
+def builtOf (toks : List (Tok × HTk)) : Option (List Clause × Head) :=
   match parseWith bql (fun t => t.1) eofTk (64 + 128 * toks.length) toks with
-  | .accept rest evs => if rest.isEmpty then (wrun { stmt := 1 } (toHEvs evs)).map (fun w => (w.pattern, w.order)) else none
+  | .accept rest evs => if rest.isEmpty then (wrun { stmt := 1 } (toHEvs evs)).map (fun w => (w.pattern, w.head)) else none
   | _ => none
 
 def main : IO Unit := do
@@ -75,20 +88,24 @@ def main : IO Unit := do
   forLines stdin fun line => do
     match words line with
     | "Q" :: ws =>
-      match kv ws "tk", kv ws "c", kv ws "ob" with
-      | some tk, some c, some ob =>
-        let wantOb := listOf "," (fun x => match x.splitOn ":" with
-          | [b, d] => do pure (← hexStr b, d == "1")
-          | _ => none) ob
-        match listOf ";" parseTok tk, listOf ";" parseClause c, wantOb with
-        | some toks, some want, some wantOb =>
-          match clausesOf toks with
-          | some (got, gotOb) =>
-            IO.println (if got == want && gotOb == wantOb then "same"
-              else if got == want then s!"differs order-by model={repr gotOb}" else s!"differs model={repr got}")
+      match kv ws "tk", parseStmt ws with
+      | some tk, some st =>
+        match listOf ";" parseTok tk with
+        | some toks =>
+          match builtOf toks with
+          | some (got, hd) =>
+            let diffs : List String :=
+              (if got == st.clauses then [] else [s!"clauses model={repr got}"]) ++
+              (if hd.projs == st.projs then [] else [s!"projections model={repr hd.projs}"]) ++
+              (if hd.graphs == st.graphs then [] else [s!"graphs model={repr hd.graphs}"]) ++
+              (if hd.groupBy == st.groupBy then [] else [s!"group-by model={repr hd.groupBy}"]) ++
+              (if hd.order == st.orderBy then [] else [s!"order-by model={repr hd.order}"]) ++
+              (if hd.limit == st.limit then [] else [s!"limit model={repr hd.limit}"]) ++
+              (if hd.lower == st.lower && hd.upper == st.upper then [] else [s!"bounds model={repr hd.lower},{repr hd.upper}"])
+            IO.println (if diffs.isEmpty then "same" else "differs " ++ " ".intercalate diffs)
           | none => IO.println "model-rejects"
-        | _, _, _ => IO.println "bad-op"
-      | _, _, _ => IO.println "-"
+        | none => IO.println "bad-op"
+      | _, _ => IO.println "-"
     | _ => IO.println "-"
 
 end Driver.Hooks
